@@ -91,9 +91,10 @@ def flat_leaves(design, port):
   t = [t for n, d, t in top_c["ports"] if n == port]
   if not t: return [(port, 0, 1)]                      # reset/clk
   t = t[0]
-  if t[0] == "b": return [(port, 0, t[1])]
+  flat = port.replace("[", "__").replace("]", "")       # element i of a list port: name__i
+  if t[0] == "b": return [(flat, 0, t[1])]
   pos, tot = S.positions(t)
-  return [(port + "".join("__" + str(x) for x in path), lo, hi) for path, (lo, hi) in pos.items()]
+  return [(flat + "".join("__" + str(x) for x in path), lo, hi) for path, (lo, hi) in pos.items()]
 
 
 def run_sv(text, topmod, design, seq, trace, strict, flat=False):
@@ -101,13 +102,20 @@ def run_sv(text, topmod, design, seq, trace, strict, flat=False):
   d = parse_design(text)
   sim = d.simulate(topmod, strict_lrm_index_sign=strict)
 
+  def split(p):
+    if "[" not in p: return p, ()
+    base, rest = p.split("[", 1)
+    return base, tuple(int(x) for x in rest.rstrip("]").split("]["))
+
   def setp(p, v):
-    if not flat: sim.set(p, v); return
+    if not flat:
+      n, idx = split(p); sim.set(n, v, index=idx); return
     for name, lo, hi in flat_leaves(design, p):
       sim.set(name, (v >> lo) & ((1 << (hi - lo)) - 1))
 
   def getp(p):
-    if not flat: return sim.get(p)
+    if not flat:
+      n, idx = split(p); return sim.get(n, index=idx)
     v = 0
     for name, lo, hi in flat_leaves(design, p):
       v |= (sim.get(name) & ((1 << (hi - lo)) - 1)) << lo
